@@ -29,7 +29,15 @@ func loadSites(path string) {
 	json.Unmarshal(b, &sitesTable)
 }
 
+var sitesTried bool
+
 func siteName(id uint32) string {
+	if sitesTable == nil && !sitesTried {
+		// workers do not parse the table at start-up (it costs more than a hundred runs); it is
+		// loaded the first time a trace needs a name
+		sitesTried = true
+		loadSites("")
+	}
 	if int(id) < len(sitesTable) {
 		s := sitesTable[id]
 		if s.Line == 0 {
